@@ -500,6 +500,11 @@ def _cmp_c17(kind, case, impl, model):
 
 def _c17_property(r):
     imp = r["impl"]
+    if r["kind"] == "process" and isinstance(imp, dict) and imp.get("class") == "ok":
+        # "a long-form DID ... returned when a create request is processed, resolves ... to" the same result
+        if imp.get("resolve_again") != imp.get("result"):
+            return "process/returned-did-does-not-resolve-to-the-same-result"
+        return None
     if r["kind"] != "vdr" or not isinstance(imp, dict) or imp.get("class") != "ok":
         return None
     if imp.get("not_deterministic"):
